@@ -54,6 +54,25 @@ func judgeEqual(c *core.Ctx, f equalFn, tag, aT, bT, kind string) {
 	if !decided {
 		c.Count("out_of_domain")
 		c.Count("ood:" + why)
+		// The value is not compared here, but the laws hold for every pair of well-formed
+		// texts: the answer does not depend on the order of the arguments, and a
+		// well-formed text equals itself.
+		if why != "ill-formed UTF-8" {
+			back, pn2 := callEqual(f, bT, aT)
+			c.Eval(1)
+			if pn2 == nil && back != got {
+				c.Violation(tag+"not-symmetric:"+kind+":"+why, d)
+				return
+			}
+			for _, t := range []string{aT, bT} {
+				if self, pn3 := callEqual(f, t, t); pn3 == nil && !self {
+					d["text"] = clip(t, 1500)
+					c.Violation(tag+"not-reflexive:"+kind+":"+why, d)
+					return
+				}
+			}
+			c.Count("laws-on-undecided-pairs")
+		}
 		return
 	}
 	c.Count("in_domain")
@@ -170,6 +189,48 @@ func init() {
 					}
 				}
 				judgeEqual(c, jp.Equal, "", aT, bT, "malformed")
+			}},
+			{Name: "duplicate-names", Count: n(20000, 400000), Run: func(c *core.Ctx, idx int) {
+				// objects that repeat a member name: what they denote is not compared, but symmetry and
+				// reflexivity must hold; b is a itself respelled, a with its duplicates removed, or a
+				// with one occurrence of a repeated name renamed (same spelled size, other names)
+				dp := prof.With(func(p *gen.Profile) { p.Dup = true; p.Width = 6; p.Keys = []string{"a", "b", "c"} })
+				aT := dp.Object(c.R, 1+c.R.Intn(3))
+				a := mustParse(aT)
+				var bT string
+				switch c.R.Intn(3) {
+				case 0:
+					bT = dp.Respell(c.R, a, false)
+				case 1:
+					b := a.Clone()
+					seen := map[string]bool{}
+					var ks []string
+					var vs []*jr.Value
+					for i := len(b.Keys) - 1; i >= 0; i-- {
+						if !seen[b.Keys[i]] {
+							seen[b.Keys[i]] = true
+							ks = append([]string{b.Keys[i]}, ks...)
+							vs = append([]*jr.Value{b.Vals[i]}, vs...)
+						}
+					}
+					b.Keys, b.Vals = ks, vs
+					bT = b.String()
+				default:
+					b := a.Clone()
+					for i := range b.Keys {
+						for j := i + 1; j < len(b.Keys); j++ {
+							if b.Keys[i] == b.Keys[j] {
+								b.Keys[i] = "zz" + b.Keys[i]
+							}
+						}
+					}
+					bT = b.String()
+				}
+				if a.HasDup() {
+					c.Count("duplicate-names:pairs")
+				}
+				judgeEqual(c, jp.Equal, "", aT, bT, "duplicate-names")
+				judgeEqual(c, jp.Equal, "", bT, aT, "duplicate-names")
 			}},
 			{Name: "transitivity", Count: n(20000, 400000), Run: func(c *core.Ctx, idx int) {
 				aT := prof.Any(c.R)
